@@ -18,6 +18,12 @@ async def _transaction(p, i, cfg, log):
     """one transaction: begin, two concurrent send tasks, optional offsets, commit or abort"""
     rec = {"i": i, "records": [], "offsets": None, "want": cfg["end"], "outcome": None, "error": None, "futs": []}
     log.append(rec)
+    batch = None
+    if cfg.get("prebuilt_batch"):
+        # batch API: the builder is created while no transaction is open and submitted inside one
+        batch = p.create_batch()
+        key = b"t%d-batch" % i
+        batch.append(key=key, value=b"v", timestamp=None)
     await p.begin_transaction()
 
     async def sender(part, n):
@@ -26,8 +32,22 @@ async def _transaction(p, i, cfg, log):
             fut = await p.send("t", b"v", key=key, partition=part)
             rec["records"].append((part, key))
             rec["futs"].append(fut)
+            if cfg.get("send_gap"):
+                await asyncio.sleep(cfg["send_gap"])
 
-    await asyncio.gather(sender(0, cfg["n0"]), sender(1, cfg["n1"]))
+    if cfg.get("stagger"):
+        # the second task starts a little later (a new partition appears while AddPartitionsToTxn for the
+        # first one may still be unanswered)
+        async def late():
+            await asyncio.sleep(cfg["stagger"])
+            await sender(1, cfg["n1"])
+        await asyncio.gather(sender(0, cfg["n0"]), late())
+    else:
+        await asyncio.gather(sender(0, cfg["n0"]), sender(1, cfg["n1"]))
+    if batch is not None:
+        bf = await p.send_batch(batch, "t", partition=0)
+        rec["records"].append((0, b"t%d-batch" % i))
+        rec["futs"].append(bf)
     if cfg["offsets"]:
         off = 100 + i
         await p.send_offsets_to_transaction({TopicPartition("in", 0): OffsetAndMetadata(off, "")}, "grp")
@@ -40,16 +60,21 @@ async def _transaction(p, i, cfg, log):
         rec["outcome"] = "aborted"
 
 
-def s1_transactions(src, ntxn, fault_kinds, max_fault_requests, max_faults, kill):
+def s1_transactions(src, ntxn, fault_kinds, max_fault_requests, max_faults, kill, timing=False):
     cfgs = []
     for i in range(ntxn):
         cfgs.append({"end": ["commit", "abort"][src.choice(f"end{i}", 2)], "n0": 1 + src.choice(f"n0_{i}", 2),
                      "n1": src.choice(f"n1_{i}", 2), "offsets": src.flag(f"offsets{i}")})
+    for c in cfgs:
+        c["send_gap"] = [0.0, 0.004][src.choice(f"send_gap{cfgs.index(c)}", 2)] if timing else 0.0
+        c["stagger"] = [0.0, 0.006][src.choice(f"stagger{cfgs.index(c)}", 2)] if timing else 0.0
+        c["prebuilt_batch"] = src.flag(f"prebuilt_batch{cfgs.index(c)}") if timing else False
     marker_delay = [0.0, 0.03][src.choice("marker_delay", 2)]
     kill_at = src.choice("kill_at", 5) if kill else None  # event index at which the producer is killed and replaced
     cluster = simkafka.Cluster(nodes=(0, 1), topics={"t": 2, "in": 1})
     cluster.marker_delay = marker_delay
     cluster.blackhole = set()
+    cluster.add_partitions_delay = [0.0, 0.02][src.choice("add_partitions_delay", 2)] if timing else 0.0
     faults = txnsim.TxnFaults(src, fault_kinds, max_fault_requests, max_faults)
     cluster.fault_fn = faults
     txns = []
@@ -163,14 +188,16 @@ def s1_transactions(src, ntxn, fault_kinds, max_fault_requests, max_faults, kill
 def harnesses(tier):
     q = tier == "quick"
     if q:
-        confs = [(1, ("retriable",), 8, 1, False), (2, ("abortable",), 6, 1, False), (2, (), 0, 0, True)]
+        confs = [(1, ("retriable",), 8, 1, False, False), (2, ("abortable",), 6, 1, False, False), (2, (), 0, 0, True, False),
+                 (2, (), 0, 0, False, True), (2, ("retriable",), 12, 1, False, False)]
     else:
-        confs = [(2, ("retriable",), 10, 2, False), (2, ("abortable", "fatal"), 8, 1, False), (2, ("retriable",), 6, 1, True)]
+        confs = [(2, ("retriable",), 12, 2, False, False), (2, ("abortable", "fatal"), 8, 1, False, False),
+                 (2, ("retriable",), 6, 1, True, False), (2, ("retriable",), 6, 1, False, True)]
     hs = []
-    for ntxn, kinds, mfr, mf, kill in confs:
+    for ntxn, kinds, mfr, mf, kill, timing in confs:
         hs.append(Harness(
-            name=f"S1_transactions_{ntxn}txn_{'_'.join(kinds) or 'nofault'}_{mf}faults{'_kill' if kill else ''}", fn=s1_transactions,
-            params={"ntxn": ntxn, "fault_kinds": kinds, "max_fault_requests": mfr, "max_faults": mf, "kill": kill},
+            name=f"S1_transactions_{ntxn}txn_{'_'.join(kinds) or 'nofault'}_{mfr}req_{mf}faults{'_kill' if kill else ''}{'_timing' if timing else ''}", fn=s1_transactions,
+            params={"ntxn": ntxn, "fault_kinds": kinds, "max_fault_requests": mfr, "max_faults": mf, "kill": kill, "timing": timing},
             functions=[Sender._sender_routine, Sender._maybe_do_transactional_request, Sender._do_txn_commit,
                        Sender._find_coordinator, Sender._maybe_wait_for_pid, BaseHandler.do, InitPIDHandler.handle_response,
                        AddPartitionsToTxnHandler.handle_response, AddOffsetsToTxnHandler.handle_response,
